@@ -19,7 +19,7 @@ type c13 struct{ base }
 
 func init() {
 	runner.Register(&c13{base{id: "C13", level: "exploration",
-		rule:        "R1 injectivity, exhaustive over a hostile pool: ALL ordered pairs of distinct (hash, range) tuples built from 17 near-colliding strings (a, a.b, b.c, a., ., a.b.c, a..b, \\, a\\.b …) for S/S, plus hash-only S, N/S, S/N, N/N, B/B and B/S schemas and three schemas over numeral-looking strings (1, 1.0, 1.00, 01, 1e0, 007 …) next to number parts with the same text: Put(k1,v1); Put(k2,v2); Get(k1)=v1; Get(k2)=v2; Scan has 2 items; Delete(k1) leaves k2. Thorough adds seeded random byte-string keys (any bytes incl. '.', NUL, backslash, UTF-8). R1c: all 783 pairs of S/S keys over the alphabet {a . \\} (parts of 1-3 characters) that collide under one of seven plausible-but-wrong composite-key encodings (naive join, partial escaping, conditional escaping, concatenation). R1b equal keys: a number key part written in two notations of one value (12 notation pairs, the other key part equal to either text) addresses one item (Get, overwrite, Scan count, Delete). R2 malformed keys, exhaustive: {missing hash, missing range, wrong type x the 9 other types} x {Put, Get, Update, Delete, BatchWrite, BatchGet} x both adapters must be rejected with a validation error. R3 every update action kind naming the hash or range attribute (bare and through #alias) on present and absent items: admissible = rejected or ignored, never an item whose key attributes differ from the key it is stored under. non-trivial = the two keys share a character with the internal separator or are prefix-related (R1), the request is malformed (R2), the update names a key attribute (R3); distinct by (schema, key pair) / (op, defect) / (action, attr).",
+		rule:        "R1 injectivity, exhaustive over a hostile pool: ALL ordered pairs of distinct (hash, range) tuples built from 17 near-colliding strings (a, a.b, b.c, a., ., a.b.c, a..b, \\, a\\.b …) for S/S, plus hash-only S, N/S, S/N, N/N, B/B and B/S schemas and three schemas over numeral-looking strings (1, 1.0, 1.00, 01, 1e0, 007 …) next to number parts with the same text: Put(k1,v1); Put(k2,v2); Get(k1)=v1; Get(k2)=v2; Scan has 2 items; Delete(k1) leaves k2. Thorough adds seeded random byte-string keys (any bytes incl. '.', NUL, backslash, UTF-8). R1c: all 783 pairs of S/S keys over the alphabet {a . \\} (parts of 1-3 characters) that collide under one of seven plausible-but-wrong composite-key encodings (naive join, partial escaping, conditional escaping, concatenation). R1b equal keys: a number key part written in two notations of one value (12 notation pairs, the other key part equal to either text) addresses one item (Get, overwrite, Scan count, Delete). R2 malformed keys, exhaustive: {missing hash, missing range, wrong type x the 9 other types} x {Put, Get, Update, Delete, BatchWrite, BatchGet} x both adapters must be rejected with a validation error. R3 every update action kind naming the hash or range attribute (bare and through #alias) on present and absent items: admissible = rejected or ignored, never an item whose key attributes differ from the key it is stored under. non-trivial = the two keys share a character with the internal separator or are prefix-related (R1), the request is malformed (R2), the update names a key attribute (R3); distinct by (schema, key pair) / (op, defect) / (action, attr). The malformed-key matrix is replayed, for the writes that carry expressions, with the native interpreter active (nothing registered): validation error all the same. The hostile pool includes '%' strings.",
 		assumptions: commonAssumptions}})
 }
 
